@@ -377,6 +377,7 @@ func exploreOnce(prop string, sc *Scenario, cfg ExploreCfg, res *Result, sites m
 				res.Samples = append(res.Samples, map[string]interface{}{"scenario": sc.Name, "cfg": sc.Cfg, "default_schedule_points": len(ex.Points), "threads": ex.NThreads()})
 			}
 		}
+		states[ex.Fingerprint()] = true
 		// expand alternatives after the prefix
 		dev := 0
 		for i := 0; i < len(it.prefix) && i < len(ex.Points); i++ {
